@@ -184,6 +184,11 @@ def _t_streq(v, a):
     return isinstance(v, str) and v == a
 
 
+def _t_twicelen(v):
+    # a test function need not return a bool: a truthy value with bit 0 clear (2, 4, ...) for a non-empty str
+    return 2 * len(v) if isinstance(v, str) else 0
+
+
 def _t_timege(v, a):
     return isinstance(v, datetime) and v >= a
 
@@ -196,6 +201,7 @@ TEST_FNS = {
     "numgt": _t_numgt,
     "streq": _t_streq,
     "timege": _t_timege,
+    "twicelen": _t_twicelen,
 }
 
 
